@@ -9,6 +9,7 @@ mod asyncf;
 mod contain;
 mod count;
 mod crash;
+mod crt;
 mod cycles;
 mod probe;
 mod sigs;
@@ -87,6 +88,13 @@ fn run_one(scv: &Value, sh: &Shared) -> Value {
             };
             run_contained(1600, || cycles::execute(&sc, sh))
         }
+        "crt" => {
+            let sc: crt::CrtScenario = match serde_json::from_value(scv.clone()) {
+                Ok(s) => s,
+                Err(e) => return json!({"invalid": format!("{e}")}),
+            };
+            run_contained(120, || crt::execute(&sc, sh))
+        }
         "probe" => {
             let sc: probe::ProbeScenario = match serde_json::from_value(scv.clone()) {
                 Ok(s) => s,
@@ -113,6 +121,7 @@ fn run_one(scv: &Value, sh: &Shared) -> Value {
                     "crash" => "C05",
                     "sigs" => "C09",
                     "cycles" => "C12",
+                    "crt" => "C02",
                     "probe" => {
                         if scv["profile"] == "C10" {
                             "C10"
@@ -130,6 +139,7 @@ fn run_one(scv: &Value, sh: &Shared) -> Value {
             let v = match kind.as_str() {
                 "crash" => crash::signal_violation(s, sh),
                 "cycles" => json!({"tag": format!("died-with-signal[{}]", signal_name(s)), "props": ["C12"], "detail": format!("killed by {} in cycle {}", signal_name(s), sh.get(1))}),
+                "crt" => json!({"tag": format!("died-with-signal[{}]", signal_name(s)), "props": ["C02", "C01"], "detail": format!("killed by {} in lifetime {}, install {} (phase {}) of a history that fakes C runtime functions", signal_name(s), sh.get(1), sh.get(2), sh.get(0))}),
                 "sigs" => json!({"tag": format!("died-with-signal[{}]", signal_name(s)), "props": ["C09"], "detail": format!("killed by {} in lifetime {}, item {}", signal_name(s), sh.get(1), sh.get(2))}),
                 "async" => json!({"tag": format!("died-with-signal[{}]", signal_name(s)), "props": ["C14"], "detail": format!("killed by {} in lifetime {}, op {} (phase {})", signal_name(s), sh.get(1), sh.get(2), sh.get(0))}),
                 "probe" => probe::signal_violation(s, sh, if scv["profile"] == "C10" { "C10" } else { "C13" }),
@@ -150,6 +160,7 @@ fn generate(family: &str, profile: &str, seed: u64, index: u64) -> Value {
         "crash" => serde_json::to_value(crash::generate(profile, seed, index)).unwrap(),
         "probe" => serde_json::to_value(probe::generate(profile, seed, index)).unwrap(),
         "cycles" => serde_json::to_value(cycles::generate(profile, seed, index)).unwrap(),
+        "crt" => serde_json::to_value(crt::generate(profile, seed, index)).unwrap(),
         "sigs" => serde_json::to_value(sigs::generate(profile, seed, index)).unwrap(),
         "async" => serde_json::to_value(asyncf::generate(profile, seed, index)).unwrap(),
         f => panic!("unknown family {f}"),
